@@ -97,6 +97,21 @@ def fetch(path: str, mcl: int) -> Dict[str, Any]:
     return res
 
 
+_WARM: Dict[Any, bool] = {}
+
+
+def warm_up(mcl: int) -> None:
+    """Every case (and every replay, in its fresh process) is preceded by the same small history in its worker: one file
+    that is served compressed and one that is not.  What a served file looks like must not depend on what was served before;
+    with the history fixed, a case that shows such a dependence reproduces from its replay file alone."""
+    key = (os.getpid(), mcl)
+    if key in _WARM:
+        return
+    _WARM[key] = True
+    for p_ in ('/sub/b.txt', '/a.txt', '/.hidden', '/nonexistent'):
+        fetch(p_, mcl)
+
+
 def evaluate(c: Dict[str, Any]) -> Tuple[List[Any], Dict[str, Any]]:
     path = '/' + ''.join(c['tokens'])
     if path.startswith('//'):
@@ -105,6 +120,7 @@ def evaluate(c: Dict[str, Any]) -> Tuple[List[Any], Dict[str, Any]]:
         return [], {'inside': None, 'code': None, 'outside_existing': False, 'dontcare': 'network-path-reference'}
     mcl = c.get('mcl', 20)
     top = tree()
+    warm_up(mcl)
     root = os.path.realpath(os.path.join(top, 'public'))
     wo_query = path.split('?', 1)[0]
     target = os.path.realpath(root + wo_query)
